@@ -5,6 +5,9 @@ use serde_json::{Value, json};
 use std::collections::{BTreeMap, BTreeSet};
 use std::time::Instant;
 
+/// set as soon as a VIOLATION line has been printed (see main.rs)
+pub static VIOLATION_PRINTED: std::sync::atomic::AtomicBool = std::sync::atomic::AtomicBool::new(false);
+
 pub fn verif_dir() -> String {
     std::env::var("VERIF_OUT").unwrap_or_else(|_| "/verif".to_string())
 }
@@ -175,6 +178,7 @@ impl Report {
             eprintln!("MACHINERY: cannot write replay {}: {}", path, e);
         }
         println!("VIOLATION property={} replay={}", self.id, path);
+        VIOLATION_PRINTED.store(true, std::sync::atomic::Ordering::SeqCst);
         println!("  key={} :: {}", key, truncate(detail, 600));
         self.new_violations.push((key.to_string(), detail.to_string(), path));
     }
